@@ -162,15 +162,35 @@ theorem C02_fill_inactive (d : Decl) (s : List (Option Val)) (x : Config)
 configurations have member values, every sequence of `ask(n)` / `tell(results)` calls (what is
 told has member values — in a search these are earlier proposals) and every outcome of the seeded
 choices — which members of the population are sampled, which active hyperparameter is mutated,
-the value `hp.rvs()` draws (a member of that hyperparameter's dimension), the fresh samples
-(members: `C02_fill_inactive`) — every proposed configuration is a member of the declared space:
-the mutated child is re-validated by ConfigSpace (`deactivateE`: children (de)activated by the
-conditions, placeholders for the inactive ones, forbidden mutations re-drawn). -/
+the value `hp.rvs()` draws (a member of that hyperparameter's dimension), the raw ConfigSpace
+samples of the random phase and of the fallback branch (`RegEvo.SampleOK`: values exactly for the
+active hyperparameters, members of their dimensions, no forbidden clause — the contract of
+`C02_fill_inactive`; the model completes them itself) — every proposed configuration is a member
+of the declared space: the mutated child is re-validated by ConfigSpace (`deactivateE`: children
+(de)activated by the conditions, placeholders for the inactive ones, forbidden mutations
+re-drawn), a sample is completed with the canonical inactive values. -/
 theorem C02_regevo_member (ne : NumEnv) (d : Decl) (hw : d.wf = true) (st : RegEvo.St)
     (hpop : ∀ p ∈ st.pop, dimsAll d.hps p.1 = true) (calls : List RegEvo.Op)
     (henv : ∀ o ∈ calls, RegEvo.OpOK d o) (st' : RegEvo.St) (Z : List Config)
     (hrun : RegEvo.run ne d st calls = .ok (st', Z)) : ∀ x ∈ Z, memSpace d x = true :=
   RegEvo.run_mem hw hpop henv hrun
+
+/-- **C02 (RegularizedEvolution, the fallback branch).**  On a space whose forbidden clauses leave
+a parent no allowed single-hyperparameter mutation (all 100 trials end on a `ForbiddenValueError`:
+`mutate … = .ok none`), the call still succeeds and the child is the *completion* of the fresh
+ConfigSpace sample (one entry per hyperparameter, `SampleOK`): it has a value for **every**
+hyperparameter — the canonical inactive value where the sample had none — and is a member of the
+declared space (declared kinds, bounds / choices, canonical inactive values, no forbidden clause).
+The branch taken does not matter for what is handed out (random phase, validated mutation,
+fallback: `C02_regevo_member`). -/
+theorem C02_regevo_fallback_member (ne : NumEnv) (d : Decl) (hw : d.wf = true) (st : RegEvo.St)
+    (e : RegEvo.ChildEnv) (parent p0 : Config)
+    (hpar : RegEvo.parentOf st e.idxs = some parent) (hp0 : deactivateCS ne d parent = .ok p0)
+    (hexh : RegEvo.mutate ne d parent (activeList d p0) 100 e.attempts = .ok none)
+    (hlen : e.fresh.length = d.hps.length) (hs : RegEvo.SampleOK d e.fresh) :
+    ∃ y, RegEvo.child ne d st e = .ok y ∧ fillInactive d.hps e.fresh = some y ∧
+      y.length = d.hps.length ∧ memSpace d y = true :=
+  RegEvo.child_fallback hw hpar hp0 hexh hlen hs
 
 /-! ### non-vacuity and regression witnesses -/
 
@@ -308,6 +328,58 @@ example : (RegEvo.run ne1 d1 stR
                 ⟨[1, 0], [⟨"b", .int 1⟩, ⟨"m", .int 4⟩], []⟩]]).toOption.map (·.2) =
     some [[.str "y", .int 4, .int 1, .real 1], [.str "x", .int 4, .int 3, .real 2]] := by
   decide +kernel
+
+/-- a **tightly forbidden** space: two integers `a, b ∈ 0..99` forced equal (`a < b` and `a > b`
+are both forbidden: 99 % of the box) and a float `c ∈ [0.5, 2]` active iff `a == 0`.  From the
+parent `(5, 5)` a single mutation is allowed only if it re-draws the same value: here all 100
+trials are forbidden, the fallback branch takes the fresh ConfigSpace sample `{a: 21, b: 21}`
+(`c` inactive: absent) and hands out its completion `(21, 21, c = 0.5)`.  The uncompleted sample
+(no entry for `c`: seeded change C02-14, which completed only inside the trial loop) is not a
+member. -/
+def dTied : Decl :=
+  { hps := [{ name := "a", dim := .int 0 99 .uniform, tr := .identity, cond := none },
+            { name := "b", dim := .int 0 99 .uniform, tr := .identity, cond := none },
+            { name := "c", dim := .real (1 / 2) 2 .uniform, tr := .identity, cond := some (.cmp 0 .eq (.int 0)) }],
+    forbs := [.rel 0 1 .lt, .rel 0 1 .gt] }
+
+def stTied : RegEvo.St :=
+  { popSize := 2, sampleSize := 1,
+    pop := [([.int 5, .int 5, .real (1 / 2)], 1), ([.int 70, .int 70, .real (1 / 2)], 2)] }
+
+def eTied : RegEvo.ChildEnv :=
+  { idxs := [0],
+    attempts := (List.range 100).map (fun (k : Nat) => ⟨if k % 2 = 0 then "a" else "b", .int (6 + ((k % 90 : Nat) : Int))⟩),
+    fresh := [some (.int 21), some (.int 21), none] }
+
+example : dTied.wf = true := by decide +kernel
+example : RegEvo.parentOf stTied eTied.idxs = some [.int 5, .int 5, .real (1 / 2)] := by decide +kernel
+example : deactivateCS ne1 dTied [.int 5, .int 5, .real (1 / 2)] = .ok [.int 5, .int 5, .real (1 / 2)] := by
+  decide +kernel
+-- the hypotheses of `C02_regevo_fallback_member`: every one of the 100 trials is forbidden …
+example : RegEvo.mutate ne1 dTied [.int 5, .int 5, .real (1 / 2)]
+    (activeList dTied [.int 5, .int 5, .real (1 / 2)]) 100 eTied.attempts = .ok none := by decide +kernel
+-- … and the fresh sample honours ConfigSpace's contract
+example : RegEvo.SampleOK dTied eTied.fresh := by
+  intro x hx
+  have : x = [.int 21, .int 21, .real (1 / 2)] := by
+    have h : fillInactive dTied.hps eTied.fresh = some [.int 21, .int 21, .real (1 / 2)] := by decide +kernel
+    rw [h] at hx
+    exact (Option.some.inj hx).symm
+  subst this
+  exact ⟨by decide +kernel, by decide +kernel⟩
+-- the child handed out is the completed sample, a member
+example : RegEvo.child ne1 dTied stTied eTied = .ok [.int 21, .int 21, .real (1 / 2)] := by decide +kernel
+example : memSpace dTied [.int 21, .int 21, .real (1 / 2)] = true := by decide +kernel
+-- the uncompleted sample is not (no value for `c`), nor is a value of the wrong kind, nor a
+-- configuration off the diagonal
+example : memSpace dTied [.int 21, .int 21] = false := by decide +kernel
+example : memSpace dTied [.int 21, .int 21, .str "<missing c>"] = false := by decide +kernel
+example : memSpace dTied [.int 21, .real 21, .real (1 / 2)] = false := by decide +kernel
+example : memSpace dTied [.int 21, .int 22, .real (1 / 2)] = false := by decide +kernel
+-- with `c` active (`a == 0`) mutating `c` is always allowed: the fallback is not reached
+example : RegEvo.mutate ne1 dTied [.int 0, .int 0, .real 1]
+    (activeList dTied [.int 0, .int 0, .real 1]) 100 [⟨"b", .int 3⟩, ⟨"c", .real (3 / 2)⟩] =
+    .ok (some [.int 0, .int 0, .real (3 / 2)]) := by decide +kernel
 
 /-- the environment contract of `C02_total` is satisfiable (an `ask(2)` with constant liar) -/
 def envT : AskEnv Config (List Slice) :=
